@@ -1,11 +1,305 @@
-/- C12 — executable model (stub; filled in by the property's owner). -/
-import Mahotas.Model.Border
-import Mahotas.Model.DType
+/-
+C12 — executable model: threads as lists of atomic steps over a memory `Loc → Val`
+(interleaving semantics), the control skeletons of the three GIL-release idioms of the code
+base as event traces, and the checker for the lock discipline.
+
+Import-free (only `Mahotas.Model.Basic`): linked into the native driver.
+-/
+import Mahotas.Model.Basic
 namespace Mahotas.C12
 open Mahotas
 
+/-! ## Part 1 — memory, steps, schedules -/
+
+/-- classification of memory: `sharedRO` = input arrays several calls read (never written),
+`priv t` = everything call/thread `t` owns (its outputs, queues, offset tables, PRNG state, locals),
+`interp` = interpreter state (reference counts, error indicator, allocator) — touched only
+while holding the interpreter lock, never by a kernel step. -/
+inductive Region where
+  | sharedRO
+  | priv (t : Nat)
+  | interp
+  deriving DecidableEq, Repr
+
+structure Loc where
+  region : Region
+  idx : Nat
+  deriving DecidableEq, Repr
+
+abbrev Val := Int
+/-- the memory: a total function from locations to values. It is wrapped in a structure only so that
+the compiled driver evaluates a memory update when the step runs (a bare function type would make
+`Step.exec s m` a partial application that is re-run at every later read). -/
+structure Mem where
+  get : Loc → Val
+
+instance : CoeFun Mem (fun _ => Loc → Val) := ⟨Mem.get⟩
+
+/-- one atomic step of a kernel: `dst := op (values at srcs)`. The result depends on the memory
+only through `srcs` and only `dst` changes — by construction. `op` is an arbitrary function. -/
+structure Step where
+  dst : Loc
+  srcs : List Loc
+  op : List Val → Val
+
+/-- memory update `m[l := v]` -/
+def Mem.set (m : Mem) (l : Loc) (v : Val) : Mem := ⟨fun x => if x = l then v else m.get x⟩
+
+theorem Mem.set_apply (m : Mem) (l : Loc) (v : Val) (x : Loc) :
+    (m.set l v).get x = if x = l then v else m.get x := rfl
+
+def Step.exec (s : Step) (m : Mem) : Mem := m.set s.dst (s.op (s.srcs.map m.get))
+
+/-- thread id ↦ its program (threads without a program have the empty list) -/
+abbrev Progs := Nat → List Step
+
+/-- global state of the interleaved execution: a program counter per thread and the memory -/
+structure State where
+  pc : Nat → Nat
+  mem : Mem
+
+def init (m : Mem) : State := ⟨fun _ => 0, m⟩
+
+/-- the scheduler picks thread `t`: it executes its next pending step (nothing if it has finished) -/
+def stepThread (progs : Progs) (t : Nat) (s : State) : State :=
+  match (progs t)[s.pc t]? with
+  | none => s
+  | some st => { pc := fun u => if u = t then s.pc t + 1 else s.pc u, mem := st.exec s.mem }
+
+/-- run a schedule (list of thread ids, any length, any order) -/
+def run (progs : Progs) : List Nat → State → State
+  | [], s => s
+  | t :: sched, s => run progs sched (stepThread progs t s)
+
+/-- thread `t` alone, scheduled `k` times, from memory `m` -/
+def soloSteps (progs : Progs) (t k : Nat) (m : Mem) : State :=
+  run progs (List.replicate k t) (init m)
+
+/-- thread `t` alone to completion -/
+def solo (progs : Progs) (t : Nat) (m : Mem) : Mem :=
+  (soloSteps progs t (progs t).length m).mem
+
+/-- the confinement discipline for one step of thread `t`: writes go to `priv t`,
+reads come from `priv t` or from shared read-only memory -/
+def Step.Confined (t : Nat) (s : Step) : Prop :=
+  s.dst.region = .priv t ∧ ∀ l ∈ s.srcs, l.region = .priv t ∨ l.region = .sharedRO
+
+def Confined (progs : Progs) : Prop := ∀ t, ∀ s ∈ progs t, s.Confined t
+
+/-- a schedule is complete when every thread gets at least as many turns as it has steps -/
+def Complete (progs : Progs) (sched : List Nat) : Prop := ∀ t, (progs t).length ≤ sched.count t
+
+/-- executable version of `Step.Confined` -/
+def Step.confinedB (t : Nat) (s : Step) : Bool :=
+  decide (s.dst.region = .priv t) &&
+    s.srcs.all (fun l => decide (l.region = .priv t) || decide (l.region = .sharedRO))
+
+/-! ## Part 2 — control skeletons of a native call and the lock discipline -/
+
+/-- observable events of one native call, as far as the interpreter lock is concerned -/
+inductive Ev where
+  | validate      -- argument parsing and checks (touch Python objects)
+  | release       -- PyEval_SaveThread (constructor of `gil_release`)
+  | kernelStep    -- pure C++ work on the arrays
+  | throw         -- a C++ exception (PythonException / std::bad_alloc) leaves the kernel
+  | acquire       -- PyEval_RestoreThread (destructor of `gil_release`, or `restore()`)
+  | interpAccess  -- PyErr_*, allocation of the result, reference counts, building the return value
+  | ret           -- the entry point returns to the interpreter
+  deriving DecidableEq, Repr
+
+/-- how control leaves a region of C++ code -/
+inductive Exit where
+  | normal | thrown | returned
+  deriving DecidableEq, Repr
+
+/-- a region of code that has run: the events it emitted, how it was left, and whether a
+`gil_release` object declared in the enclosing scope is still active (`restore()` clears it) -/
+structure Region.Out where
+  evs : List Ev
+  exit : Exit
+  active : Bool
+
+/-- what the kernel does: `finish` = all `n` steps; `throwAt k` = a C++ exception after `k` steps;
+`errorAt k` = an error *detected by the code itself* after `k` steps, handled in place
+(`nogil.restore(); PyErr_Format(...); return NULL;` — only idiom (b) has such a path) -/
+inductive Outcome where
+  | finish
+  | throwAt (k : Nat)
+  | errorAt (k : Nat)
+  deriving DecidableEq, Repr
+
+def steps (k : Nat) : List Ev := List.replicate k .kernelStep
+
+/-- the body of a kernel with `n` steps; `wrap` = an array wrapper (`numpy::aligned_array`) is
+constructed *inside* the released region, which touches the reference count of the array
+(an interpreter access) at the beginning and at the end of its life time -/
+def kernelBody (n : Nat) (wrap : Bool) : Outcome → Region.Out
+  | .finish => ⟨(if wrap then [.interpAccess] else []) ++ steps n ++ (if wrap then [.interpAccess] else []),
+                .normal, true⟩
+  | .throwAt k => ⟨(if wrap then [.interpAccess] else []) ++ steps (min k n) ++ [.throw] ++
+                    (if wrap then [.interpAccess] else []), .thrown, true⟩
+  | .errorAt k => ⟨(if wrap then [.interpAccess] else []) ++ steps (min k n) ++
+                    [.acquire, .interpAccess] ++ (if wrap then [.interpAccess] else []), .returned, false⟩
+
+/-- a C++ scope whose first declaration is `gil_release nogil;`: the constructor releases the
+lock, the body runs, and however control leaves the scope (falling through, `return`, exception
+unwinding) the destructor runs and re-acquires iff the object is still active -/
+def gilScope (body : Region.Out) : Region.Out :=
+  ⟨[.release] ++ body.evs ++ (if body.active then [.acquire] else []), body.exit, false⟩
+
+/-- `try { body } catch (...) { handler; return NULL; }` — the handler runs after unwinding -/
+def tryCatchRegion (body : Region.Out) (handler : List Ev) : Region.Out :=
+  match body.exit with
+  | .thrown => ⟨body.evs ++ handler, .returned, body.active⟩
+  | _ => body
+
+/-- the rest of the entry point after a region: `rest` runs only when the region was left normally;
+a `return` inside the region returns to the interpreter; an uncaught exception leaves the entry point
+without returning -/
+def andThen (r : Region.Out) (rest : List Ev) : List Ev :=
+  match r.exit with
+  | .normal => r.evs ++ rest
+  | .returned => r.evs ++ [.ret]
+  | .thrown => r.evs
+
+/-- the three idioms.
+ (a) `py_f` validates, then `SAFE_SWITCH_ON_TYPES_OF` = `try { kernel<T>(…) } CATCH_PYTHON_EXCEPTIONS`;
+     the template kernel's first statement is `gil_release nogil;`.
+ (b) `py_f` validates, then `{ gil_release nogil; … }` with `nogil.restore()` before `PyErr_*` on the
+     error path; no handler (a C++ exception would leave the entry point).
+ (c) `try { gil_release nogil; … } catch (const std::bad_alloc&) { PyErr_NoMemory(); return NULL; }`. -/
+inductive Idiom where
+  | a | b | c
+  deriving DecidableEq, Repr
+
+def skeleton (i : Idiom) (n : Nat) (wrap : Bool) (o : Outcome) : List Ev :=
+  let body := gilScope (kernelBody n wrap o)
+  let guarded := match i with
+    | .a => tryCatchRegion body [.interpAccess]
+    | .b => body
+    | .c => tryCatchRegion body [.interpAccess]
+  .validate :: andThen guarded [.interpAccess, .ret]
+
+/-- the path on which validation fails: `PyErr_SetString(...); return NULL;` before any release -/
+def skeletonInvalid : List Ev := [.validate, .interpAccess, .ret]
+
+/-- which outcomes an idiom's code can exhibit -/
+def Outcome.possible : Idiom → Outcome → Bool
+  | _, .finish => true
+  | .a, .throwAt _ => true
+  | .c, .throwAt _ => true
+  | .b, .errorAt _ => true
+  | _, _ => false
+
+/-- is the lock held after the events `tr`, starting from `held`? -/
+def heldAfter : Bool → List Ev → Bool
+  | h, [] => h
+  | _, .release :: r => heldAfter false r
+  | _, .acquire :: r => heldAfter true r
+  | h, _ :: r => heldAfter h r
+
+/-- the discipline, as a checker run along the trace (`held` = lock state before the first event):
+`release` only while holding, `acquire` only while not holding (strict alternation),
+`validate`, `interpAccess` and `ret` only while holding, `ret` is the last event, and the trace ends
+with a `ret` (so the call returns, holding the lock). -/
+def disciplined : Bool → List Ev → Bool
+  | _, [] => false
+  | h, [.ret] => h
+  | h, .ret :: _ => h && false
+  | h, .release :: r => h && disciplined false r
+  | h, .acquire :: r => !h && disciplined true r
+  | h, .validate :: r => h && disciplined h r
+  | h, .interpAccess :: r => h && disciplined h r
+  | h, .kernelStep :: r => disciplined h r
+  | h, .throw :: r => disciplined h r
+
+/-! ## Part 3 — protocol -/
+
+def Ev.code : Ev → String
+  | .validate => "v" | .release => "r" | .kernelStep => "k" | .throw => "t"
+  | .acquire => "a" | .interpAccess => "i" | .ret => "x"
+
+def showTrace (tr : List Ev) : String := ",".intercalate (tr.map Ev.code)
+
+/-- operations available to generated programs (the theorems hold for every function) -/
+def opOf (code : Int) (c : Int) : List Val → Val :=
+  match code with
+  | 0 => fun vs => vs.foldl (· + ·) c                  -- sum + c
+  | 1 => fun vs => vs.foldl (fun a b => if a < b then b else a) c   -- max
+  | 2 => fun vs => vs.foldl (fun a b => (a * 31 + b) % 1000003) c   -- hash chain (order sensitive)
+  | _ => fun _ => c                                    -- constant
+
+def regionOf (code : Int) : Region :=
+  if code < 0 then (if code = -1 then .sharedRO else .interp) else .priv code.toNat
+
+/-- decode a flat list of integers into programs:
+    `nsteps, (thread, dstRegion, dstIdx, opcode, const, nsrc, (srcRegion, srcIdx)*)*` -/
+def decodePairs : List Int → List Loc
+  | r :: i :: more => ⟨regionOf r, i.toNat⟩ :: decodePairs more
+  | _ => []
+
+def decodeStepsAux : Nat → List Int → List (Nat × Step)
+  | 0, _ => []
+  | fuel + 1, t :: dr :: di :: oc :: c :: ns :: rest =>
+    let k := ns.toNat
+    (t.toNat, ⟨⟨regionOf dr, di.toNat⟩, decodePairs (rest.take (2 * k)), opOf oc c⟩) ::
+      decodeStepsAux fuel (rest.drop (2 * k))
+  | _, _ => []
+
+def decodeSteps (xs : List Int) : List (Nat × Step) := decodeStepsAux xs.length xs
+
+def progsOf (steps : List (Nat × Step)) : Progs :=
+  fun t => (steps.filter (fun p => p.1 == t)).map (·.2)
+
+/-- initial memory of generated cases: a fixed mixing function of the location -/
+def initMem (seed : Int) : Mem := ⟨fun l =>
+  let r : Int := match l.region with
+    | .sharedRO => 1 | .interp => 2 | .priv t => 3 + t
+  (seed * 7919 + r * 104729 + (l.idx : Int) * 1299709) % 1000⟩
+
+def dumpPriv (m : Mem) (nthreads nloc : Nat) : List Int :=
+  (List.range nthreads).flatMap fun t => (List.range nloc).map fun i => m ⟨.priv t, i⟩
+
+def dumpShared (m : Mem) (nloc : Nat) : List Int :=
+  (List.range nloc).map fun i => m ⟨.sharedRO, i⟩
+
+def outcomeOf (a : Args) : Outcome :=
+  let k := a.int "throwat" (-1)
+  let e := a.int "errat" (-1)
+  if 0 ≤ k then .throwAt k.toNat else if 0 ≤ e then .errorAt e.toNat else .finish
+
+def idiomOf (s : String) : Idiom :=
+  if s == "b" then .b else if s == "c" then .c else .a
+
 def handle (a : Args) : String :=
   match a.str "kind" with
+  | "sched" =>
+    let nth := a.nat "nthreads"
+    let nloc := a.nat "nloc"
+    let st := decodeSteps (a.ints "progs")
+    let progs := progsOf st
+    let m0 := initMem (a.int "seed")
+    let sched := a.nats "sched"
+    let fin := run progs sched (init m0)
+    let inter := dumpPriv fin.mem nth nloc
+    -- thread t alone, scheduled as often as in `sched`
+    let soloM := (List.range nth).flatMap fun t =>
+      let s := soloSteps progs t (sched.count t) m0
+      (List.range nloc).map fun i => s.mem ⟨.priv t, i⟩
+    let conf := (List.range nth).all fun t => (progs t).all (Step.confinedB t)
+    let compl := (List.range nth).all fun t => decide ((progs t).length ≤ sched.count t)
+    let sharedSame := dumpShared fin.mem nloc == dumpShared m0 nloc
+    s!"inter={showInts inter} solo={showInts soloM} equal={if inter == soloM then 1 else 0} " ++
+    s!"confined={if conf then 1 else 0} complete={if compl then 1 else 0} " ++
+    s!"shared={showInts (dumpShared fin.mem nloc)} sharedsame={if sharedSame then 1 else 0} " ++
+    s!"pcs={showNats ((List.range nth).map fin.pc)}"
+  | "skeleton" =>
+    let i := idiomOf (a.str "idiom")
+    let o := outcomeOf a
+    let tr := if a.nat "invalid" == 1 then skeletonInvalid
+              else skeleton i (a.nat "steps") (a.nat "wrap" == 1) o
+    s!"trace={showTrace tr} ok={if disciplined true tr then 1 else 0} " ++
+    s!"possible={if Outcome.possible i o then 1 else 0} held={if heldAfter true tr then 1 else 0}"
   | k => s!"error=unknown-kind-{k}"
 
 end Mahotas.C12
